@@ -163,9 +163,9 @@ def toy_binary_scenario(draw, cap=400, max_phases=3, allow_profile=True, sites=N
 
 
 @st.composite
-def toy_multi_scenario(draw, cap=300, max_phases=2, allow_profile=True):
+def toy_multi_scenario(draw, cap=300, max_phases=2, allow_profile=True, min_phases=1):
     T0 = draw(st.floats(600.0, 1000.0))
-    nph = min(max_phases, draw(st.sampled_from([1, 1, 2])))
+    nph = max(min_phases, min(max_phases, draw(st.sampled_from([1, 1, 2]))))
     x0 = [draw(st.floats(0.005, 0.08)), draw(st.floats(0.005, 0.08))]
     vmA = 10 ** draw(st.floats(-5.3, -4.8))
     cons = draw(constraints_spec())
